@@ -524,10 +524,42 @@ class Exec:
                            'upg_state': self.upg_state(s),
                            'poll_pending': any(not q.done for q in s.polls)})
 
+    def live_view(self):
+        """{ord: 'websocket' | 'polling-poll-pending' | 'polling-no-poll-pending'} of the sessions
+        that are live right now (connected, accepted, no disconnect event yet)."""
+        out = {}
+        for s in self.sessions:
+            if self.sid_of(s) is None or not s.expect_accept:
+                continue
+            evs = self.events_for(s)
+            if not any(e == 'connect' for _, e, _ in evs) or \
+                    any(e == 'disconnect' for _, e, _ in evs):
+                continue
+            if s.main_ws is not None:
+                out[s.ord] = 'websocket'
+            else:
+                out[s.ord] = 'polling-poll-pending' if any(not p.done for p in s.polls) \
+                    else 'polling-no-poll-pending'
+        # sessions created by raw requests are not in the model: classification only (never an
+        # oracle input) looks at the server's table for them
+        known = set(self.sid_of(s) for s in self.sessions)
+        for sid, sock in list(getattr(self.world.server, 'sockets', {}).items()):
+            if sid not in known and not getattr(sock, 'closed', False):
+                out['raw-' + sid] = 'websocket' if getattr(sock, 'upgraded', False) \
+                    else 'polling-no-poll-pending'
+        return out
+
+    def _quiet_issue(self, a):
+        n = len(self.actions) - 1
+        return (n == 0 or n in self.quiet_points) and bool(a.get('settle', True))
+
     def op_app_disconnect(self, a):
+        view = self.live_view()
         if a.get('s') is None:
             c = self.world.call('disconnect')
             c.sess = None
+            c.view = view
+            c.quiet = self._quiet_issue(a)
             for s in self.sessions:
                 s.causes.append({'t': self.now, 'cause': 'api', 'call': c,
                                  'step': len(self.actions), 'det': self.annotate_live(s, a)})
@@ -537,6 +569,8 @@ class Exec:
             return
         c = self.world.call('disconnect', self.sid_of(s) or 'nosuchsid')
         c.sess = s
+        c.view = view
+        c.quiet = self._quiet_issue(a)
         s.causes.append({'t': self.now, 'cause': 'api', 'call': c, 'step': len(self.actions),
                          'det': self.annotate_live(s, a)})
 
@@ -579,13 +613,19 @@ class Exec:
         body = rm.untag(a['body']) if a.get('body') else b''
         if isinstance(body, str):
             body = body.encode('utf-8')
-        if a.get('ws'):
-            c = self.world.ws_open(q, headers=[tuple(h) for h in a.get('headers', [])])
+        hl = {h[0].lower(): h[1].lower() for h in a.get('headers', [])}
+        is_ws = a.get('ws') or (a['method'] == 'GET' and hl.get('upgrade') == 'websocket' and
+                                'upgrade' in hl.get('connection', ''))
+        if is_ws:
+            # a GET carrying both upgrade headers is what a gateway hands over as a WebSocket
+            c = self.world.ws_open(q, headers=[tuple(h) for h in a.get('headers', [])
+                                               if h[0].lower() not in ('upgrade', 'connection')])
             c.role, c.sess = 'raw', s
             self.raw_reqs.append(c)
         else:
-            r = self.world.http(a['method'], q, headers=[tuple(h) for h in a.get('headers', [])],
-                                body=body)
+            hdrs = [tuple(h) for h in a.get('headers', [])]
+            r = self.world.http(a['method'], q, headers=hdrs, body=body,
+                                declared=a.get('content_length'))
             r.role, r.sess = 'raw', s
             self.raw_reqs.append(r)
 
@@ -885,4 +925,59 @@ class Drawer:
             [TICK, 0.25, 0.5, 1.0, ex.I / 2, ex.I, ex.T / 2, ex.T, ex.T + TICK, ex.I + ex.T]))}
 
     def a_request(self):
-        return None
+        d = self.draw
+        i = self.session_index()
+        if d(st.integers(0, 7)) == 0:
+            # half-formed WebSocket requests (a proxy that strips hop-by-hop headers)
+            q = d(st.sampled_from(['transport=websocket&EIO=4', 'transport=websocket&EIO=4&sid={sid}',
+                                   'transport=polling&EIO=4&sid={sid}', 'transport=websocket&EIO=4&j=1']))
+            h = d(st.sampled_from([[['Upgrade', 'websocket']], [['Upgrade', 'WebSocket']],
+                                   [['Connection', 'Upgrade']],
+                                   [['Upgrade', 'websocket'], ['Connection', 'keep-alive']]]))
+            return {'op': 'request', 's': i, 'method': 'GET', 'query': q, 'headers': h}
+        method = d(st.sampled_from(['GET', 'GET', 'POST', 'POST', 'OPTIONS', 'PUT', 'DELETE', 'HEAD',
+                                    'PATCH']))
+        sidv = d(st.sampled_from(['{sid}', '{sid}', '{sid}', 'nosuchsid', '', None]))
+        parts = []
+        tr = d(st.sampled_from(['polling', 'polling', 'websocket', None, 'bogus', 'Polling', '']))
+        if tr is not None:
+            parts.append('transport=' + tr)
+        eio = d(st.sampled_from(['4', '4', '4', '3', '', None, '44', '4&EIO=4']))
+        if eio is not None:
+            parts.append('EIO=' + eio)
+        if sidv is not None:
+            parts.append('sid=' + sidv)
+        j = d(st.sampled_from([None, None, None, '0', '7', 'x', '']))
+        if j is not None:
+            parts.append('j=' + j)
+        if d(st.integers(0, 9)) == 0:
+            parts.append(d(st.sampled_from(['%zz', '&&&', 'sid', '=', 'sid=%ff%fe', 't=1.5',
+                                            'transport', 'EIO'])))
+        a = {'op': 'request', 's': i, 'method': method, 'query': '&'.join(parts)}
+        hdrs = []
+        if d(st.integers(0, 5)) == 0:
+            hdrs.append(['Origin', d(st.sampled_from(['http://localhost', 'http://evil.example',
+                                                      '']))])
+        if d(st.integers(0, 5)) == 0:
+            hdrs.append(['Accept-Encoding', d(st.sampled_from(['gzip', 'deflate', 'br']))])
+        if d(st.integers(0, 7)) == 0:
+            hdrs.append(['Upgrade', d(st.sampled_from(['websocket', 'h2c', 'WebSocket']))])
+            if d(st.booleans()):
+                hdrs.append(['Connection', 'Upgrade'])
+        if method in ('POST', 'PUT', 'PATCH') or d(st.integers(0, 9)) == 0:
+            body = d(st.sampled_from([
+                '4hello', '', '4a\x1e4b', '1', '6', '7', '9x', 'x', '\x1e', '4a\x1e', 'bAQ', 'b!!',
+                '4' + '[' * 300, '4' + '9' * 400, '\x1e' * 40, 'd=4a', 'd=', 'd=%ff', '٣', '4é',
+                '2', '3', '5', '0{}', '4{"a":', 'b' + 'A' * 50]))
+            a['body'] = rm.tag(body)
+            cl = d(st.sampled_from([None, None, None, None, '0', '3', '100000000', '-1', 'abc',
+                                    '']))
+            if cl is not None:
+                a['content_length'] = cl
+            if d(st.integers(0, 9)) == 0:
+                a['body'] = rm.tag(d(st.sampled_from([b'\xff\xfe4a', b'4\xc3', b'\x00'])))
+        if hdrs:
+            a['headers'] = hdrs
+        if d(st.integers(0, 11)) == 0 and method == 'GET':
+            a['ws'] = True
+        return a
